@@ -15,6 +15,7 @@ import KotoVerif.Lemmas.C14EqSymm
 import KotoVerif.Lemmas.C14KeyPER
 import KotoVerif.Lemmas.C14Hash
 import KotoVerif.Lemmas.C14NumOrder
+import KotoVerif.Lemmas.C14TrySort
 import KotoVerif.Lemmas.C14DeepCopy
 import KotoVerif.Lemmas.C14DeepCopySnap
 
@@ -329,6 +330,48 @@ theorem str_total_preorder : TotalPreorder bytesLt where
       · rw [h] at hab; exact absurd hab (by simp)
 
 example : sortBy bytesLt [[98], [97, 1], [97]] = [[97], [97, 1], [98]] := by decide
+
+/-- operations that fail part-way lose nothing: after `list.sort()`, `map.sort()` and
+`map.sort(|k, v| v)` — whether they return or raise because two entries cannot be compared — the
+container holds a permutation of its entries (the code sorts with `try_sort_by`, which writes back
+completed merges only; every alias sees that one object, `alias_shared`) -/
+theorem failed_sort_keeps_entries (F : FloatOps) (mech : Bool) (self : HVal) (xs : List HVal)
+    (es : List (Val × HVal)) :
+    (applyL F self .sort xs).1.Perm xs ∧ (applyM F mech self .sort es).1.Perm es ∧
+    (applyM F mech self .sortVal es).1.Perm es := by
+  refine ⟨?_, ?_, ?_⟩
+  · simp only [applyL]
+    split
+    · exact sortBy_perm _ xs
+    · exact trySortBy_perm _ xs
+  · simp only [applyM]
+    split
+    · exact sortBy_perm _ es
+    · exact trySortBy_perm _ es
+  · simp only [applyM]
+    split
+    · exact sortBy_perm _ es
+    · exact trySortBy_perm _ es
+
+/-- `list.retain` with a predicate that raises: what is left is a sub-sequence of the list (the
+values retained so far followed by the untested ones) -/
+theorem failed_retain_sublist (p : HVal → Option Bool) (xs : List HVal) :
+    (retainTry p xs).1.Sublist xs := by
+  induction xs with
+  | nil => exact List.Sublist.refl _
+  | cons x xs ih =>
+    simp only [retainTry]
+    split
+    · exact List.Sublist.refl _
+    · exact List.Sublist.cons_cons x ih
+    · exact List.Sublist.cons x ih
+
+/-- finding F-C14-5 in the model: on keys of mixed kinds `ValueKey::partial_cmp` is not a preorder
+and `map.sort()` leaves `2` before `1` -/
+theorem map_sort_mixed_keys_witness :
+    ((applyM Equal.F0 false .null .sort
+        [(.num (.i 2), .null), (.str [120], .null), (.str [121], .null), (.num (.i 1), .null)]).1.map Prod.fst)
+      = [.num (.i 2), .str [120], .str [121], .num (.i 1)] := by rfl
 
 /-- the number comparator (`<` on `KNumber`, as `compare_values` applies it) is a total preorder on
 numbers without NaN whose integers convert to `f64` strictly monotonically (`S`; for doubles
